@@ -52,7 +52,7 @@ def fs_key(ops, step):
     k = ""
     if op in ("open", "put", "dunlink", "symlink"):
         k = ":k%s" % t[2]
-    elif op in ("copy", "rename"):
+    elif op in ("copy", "copylim", "rename"):
         k = ":k%s" % t[3]
     tgt = paths[-1] if paths else ""
     return "Fs.%s%s%s" % (op, k, ":targetSeen" if tgt in before else "")
@@ -157,7 +157,7 @@ def label_to_op(name, args):
         return "put %s %d %s" % (pstr(p), k, hexs(d))
     if op in ("get", "unlink", "dcreate", "fexists", "dexists"):
         return "%s %s" % (op, pstr(p))
-    if op in ("copy", "rename"):
+    if op in ("copy", "copylim", "rename"):
         return "%s %s %s %d" % (op, pstr(p), pstr(q), k)
     if op in ("dunlink", "symlink", "dcreated"):
         return "%s %s %d" % (op, pstr(p), k)
@@ -196,8 +196,10 @@ def rand_fs_exec(rng, nops):
             ops.append("put %s %d %s" % (p, rng.choice([2, 3, 6, 10, 7]), d))
         elif x < 0.34:
             ops.append("get " + p)
-        elif x < 0.44:
+        elif x < 0.41:
             ops.append("copy %s %s %d" % (p, q, rng.randint(0, 1)))
+        elif x < 0.44:
+            ops.append("copylim %s %s %d" % (p, q, rng.randint(0, 7)))       # failIfExists + 2 * (no file may grow beyond this)
         elif x < 0.56:
             ops.append("rename %s %s %d" % (p, q, rng.randint(0, 1)))
         elif x < 0.62:
